@@ -66,7 +66,7 @@ func genShape(r *engine.RNG, kind string, c06 bool) *engine.Shape {
 			na = r.PickInt(8, 255)
 		}
 		for i := 0; i < na; i++ {
-			a := engine.Shape{Kind: "raddr", U: []uint64{uint64(r.Intn(256)), 0}, Str: r.PickStr("NTCP2", "SSU2", "x")}
+			a := engine.Shape{Kind: "raddr", U: []uint64{uint64(r.Intn(256)), 0}, Str: r.PickStr("NTCP2", "SSU2", "x", "ntcp2", "=;", strings.Repeat("S", 255), "\x00")}
 			a.Opts, _ = adapters.Options(r, 5)
 			if c06 {
 				a.Opts = dropEmptyKeys(a.Opts)
@@ -96,6 +96,9 @@ func genShape(r *engine.RNG, kind string, c06 bool) *engine.Shape {
 			sh.Cert, sh.Crypto = "null", 0 // classic ElGamal + DSA destination
 		}
 		sh.U = []uint64{edge32(r), edge16(r), uint64(r.Intn(4)) << 1}
+		if r.Chance(1, 12) {
+			sh.U[2] |= uint64(1+r.Intn(1<<13-1)) << 3 // reserved flag bits: the constructors do not refuse them
+		}
 		off(7, 7, 11, 8, 0, 1)
 		if kind == "ls2" {
 			sh.N = r.PickInt(1, 1, 2, 3, 5, 16)
@@ -118,6 +121,9 @@ func genShape(r *engine.RNG, kind string, c06 bool) *engine.Shape {
 	case "els":
 		sh.Sig = r.PickInt(7, 7, 7, 11, 11, 0, 1)
 		sh.Size = r.PickInt(61, 61, 80, 200, 600)
+		if c06 && r.Chance(1, 10) {
+			sh.Size = r.PickInt(65534, 65535, 65536, 65537, 70000) // around the 16-bit inner length field
+		}
 		sh.U = []uint64{edge32(r), max(1, edge16(r)), uint64(r.Intn(2)) << 1}
 		off(7, 7, 11, 8, 0)
 	case "offsig":
@@ -823,6 +829,12 @@ func c06Check(o *engine.Outcome, sh *engine.Shape, count bool, ef *engine.Fault)
 	var consumed int
 	o.Guard("floodfill", func() { accepted, consumed, parsed, _ = floodfill(sh.Kind, append([]byte(nil), b...), c.idSig, c.idKey) })
 	if !parsed {
+		if sh.Kind == "ls2" && len(b) < 499 {
+			// a specific, recorded corner: the parser refuses anything shorter
+			// than its fixed minimum size, which a DSA destination with one
+			// lease and a very short encryption key of an unknown type undercuts
+			return "own-serialisation-rejected-by-parser/shorter-than-the-parsers-fixed-minimum-of-499-bytes", fmt.Sprintf("%d bytes", len(b))
+		}
 		return "own-serialisation-rejected-by-parser", fmt.Sprintf("%d bytes", len(b))
 	}
 	if sh.Kind != "leaseset" && consumed != len(b) {
